@@ -254,20 +254,24 @@ PROPS = {
     "C19": {
         "cases": {"quick": 16000, "thorough": 480000},
         "rule": "Per case one definition with 1-2 adjacent groups (flag + 1-3 positionals, flag or "
-                "argument + named arguments with optional members; bare, optional, many) among "
+                "argument + named arguments with optional members, groups nested in groups, a "
+                "nested plain tuple as first member; bare, optional, many) among "
                 "named items and trailing positionals. Derivations with 0-3 contiguous blocks must "
                 "yield one value per block in order; broken lines (foreign or declared item "
-                "between members, required member moved away, cut short) are run and any value "
+                "between members, required member moved away, word member written in front of the "
+                "first item, cut short) are run and any value "
                 "they yield is checked token by token: every block value must come from one "
-                "contiguous run of items; a block interrupted by an undeclared item must fail. "
+                "contiguous run of items that starts at the group's first item; a block "
+                "interrupted by an undeclared item must fail. "
                 + DISTINCT,
         "assumptions": COMMON_ASSUMPTIONS + [
-            "Adjacent subcommand chains are checked on sentences only (value per command in "
-            "command-line order); broken chains are not generated.",
+            "Adjacent subcommand chains: sentences (value per command in command-line order) and "
+            "two kinds of broken blocks (an outer item or an undeclared item inside a block).",
         ],
         "must_observe": ["class:contiguous-blocks:1", "class:contiguous-blocks:2",
                          "class:broken:interrupted-by-foreign-item",
                          "class:broken:required-member-moved-away",
+                         "class:broken:word-member-in-front-of-first-item",
                          "adjacent-command-chain:2"],
         "needs_hooks": True,
         "technique": "runtime monitoring: derivation-directed oracle + contiguity checker over "
@@ -312,7 +316,9 @@ PROPS = {
                 "root and inside a command. Rounds: (A) random valid environment state x a "
                 "derivation that knows the state (line beats variable, variable beats default, "
                 "flags count as present when the variable is set, even empty); the same line with "
-                "undeclared variables set must give the identical outcome; (B) an invalid value "
+                "undeclared variables set must give the identical outcome; with the state applied "
+                "`--help` must show the first declared variable of every visible root item as "
+                "set / valued exactly when the parser sees it set (empty counts as set); (B) an invalid value "
                 "in the variable of an item absent from the line must fail with the conversion "
                 "message; (C) a plain required item with item and variable absent must fail "
                 "naming the item or the variable. Every 8th case is repeated in a child process "
@@ -320,7 +326,8 @@ PROPS = {
         "assumptions": COMMON_ASSUMPTIONS + [
             "Shard processes are single-threaded, so set_var/remove_var between cases is safe.",
         ],
-        "must_observe": ["class:line+environment", "line_and_variable(precedence)",
+        "must_observe": ["class:line+environment", "help-variable-states-checked",
+                         "line_and_variable(precedence)",
                          "variable_only(fallback)", "class:invalid-variable-value",
                          "class:item-and-variable-absent", "child-processes"],
         "needs_hooks": True,
@@ -503,6 +510,8 @@ PROPS = {
                 "comments as help, descr/header/footer blocks and explicit descr/header/footer "
                 "annotations, version, tuple structs, unit variants, field variants, tuple "
                 "variants, command variants with custom names and aliases, skipped variants, "
+                "top-level command structs with short/long/help/adjacent/fallback_to_usage and "
+                "fallback/hide/hide_usage/custom_usage decorations used through external, "
                 "nested derived enums through external) together with the hand-written combinator equivalent produced by an "
                 "independent implementation of the documented rules. The crate is compiled against "
                 "/repo and both parsers of every type are run on the same vectors (valid lines, "
@@ -517,8 +526,8 @@ PROPS = {
             "that fails to compile makes the check inconclusive, not violated.",
             "bpaf is built from /repo's working tree (debug profile, overflow checks on).",
         ],
-        "must_observe": ["types", "structs", "enums", "outcome:value", "outcome:stdout",
-                         "outcome:stderr"],
+        "must_observe": ["types", "structs", "enums", "decorated_top_level_commands",
+                         "outcome:value", "outcome:stdout", "outcome:stderr"],
         "technique": "runtime monitoring: differential oracle between two real parsers (derive "
                      "macro output vs independently written combinators) over generated types and "
                      "vectors",
